@@ -9,6 +9,7 @@
    StRunCtxEnded c o (context already ended AND timer due; the runtime picked the timer). *)
 From Coq Require Import ZArith List Bool.
 From LLRP Require Import Retry.NextWait Retry.NextWaitProofs Retry.RetryLoop Retry.RetryLoopProofs.
+From LLRP Require GoFn.IR Retry.NextWaitTie.
 Import ListNotations.
 Open Scope Z_scope.
 
@@ -334,3 +335,26 @@ Example C18_example_limit_past_63 :
     [63; 64; 65; 70; 100; 121]%nat /\
   exists fe, res (retry_run 64 2 None (Rec 0%nat) hist) = RetErr fe /\ main fe = ERetriesExceeded.
 Proof. vm_compute. split; [reflexivity|]. eexists. split; reflexivity. Qed.
+
+(* ================================================================== the code (Way 1)
+
+   [f], [fm], [fb] are Go functions in the embedding GoFn/IR.v: nextWait and the normalisation of
+   Max / BackOff in RetryWithCtx as translated from internal/retry/retry.go by tools/go-fn-ir on
+   every run.  The per-run obligation (build/gen/C18/Ob_retry_*.v) proves the three hypotheses for
+   THAT translation; then the pause the code computes before the n-th re-run — normalise, call
+   nextWait with attempt n and draw r — is the model's [pause] for ALL int64 BackOff, Max, n, so
+   every theorem above about [pause] is a theorem about the code, in particular its bounds. *)
+Theorem C18_code_pause_is_model : forall f fm fb,
+  NextWaitTie.code_is_next_wait f ->
+  NextWaitTie.code_is_norm fm (fun _ m => norm_max m) ->
+  NextWaitTie.code_is_norm fb (fun b _ => norm_base b) ->
+  forall jitter base max keep retries n r,
+    in_int64 base -> in_int64 max -> in_int64 retries -> in_int64 n ->
+    NextWaitTie.draw_ok jitter n r -> 0 <= r ->
+    exists b m,
+      IR.run fb (NextWaitTie.ebo_args jitter base max keep retries) r = Some b /\
+      IR.run fm (NextWaitTie.ebo_args jitter base max keep retries) r = Some m /\
+      IR.run f (NextWaitTie.ebo_args jitter b m keep n) r = Some (pause jitter base max n r) /\
+      0 <= pause jitter base max n r <= m.
+Proof. exact NextWaitTie.code_pause_is_model. Qed.
+Print Assumptions C18_code_pause_is_model.
